@@ -7,6 +7,18 @@ ROOT = os.path.dirname(os.path.dirname(os.path.abspath(__file__)))
 ALL = [f"C{k:02d}" for k in range(1, 21)]
 
 CLAIMED = {
+    "C19": dict(
+        text=("Region.tla defines the grammar of region strings structurally (name, numerals = digits with commas, optional decimal "
+              "part, unit) and the exact denotation of a numeral on DIGIT SEQUENCES (decimal point moved by the unit's exponent; no "
+              "floats, no overflow); TLC cross-checks the digit manipulation against integer arithmetic and the transcribed "
+              "(repaired) scaling algorithm against the denotation for all 19 360 small numerals. Every generated string carries its "
+              "structure; TLC re-derives the text from the structure, computes the denotation and compares it with what "
+              "parse_region_string returned; six kinds of malformed strings, out-of-bounds / unknown-chromosome regions must be "
+              "refused with ValueError; formatted regions (plain, commas, spaced, coordinates up to 10^12) parse back to themselves; "
+              "66 URI spellings split into the same pair."),
+        design_ref="DESIGN.md section 6 C19, section 4.11",
+        note="Trusted: TLC, code-point projection. Numerals that do not denote an integer are outside the domain.",
+        technique="TLA+ grammar/denotation checked by TLC + TLC trace validation of real parses", category="model_checking"),
     "C08": dict(
         text=("Coarsen.tla: TLC checks for ALL bin tables (<=2 chromosomes, length<=4/5, all compositions) x factors 2..4/6 that the "
               "implementation's coarse table = the declared grouping and that every old bin is re-binned into its group by the path "
